@@ -1,5 +1,6 @@
 import DirectVerif.Driver.Common
 import DirectVerif.Model.Pipeline
+import DirectVerif.Model.PipelinePrePost
 /-!
 Line-protocol interpreter of the C08 model over exact rationals (`Rat`).
 
@@ -10,6 +11,7 @@ real index computation of `Model/Crop.lean`, masks and split masks are passed in
 mask functions, which C04–C07 / C11 cover), `kOf` is a table.
 
   OP   cfg-flags | nc ns h w | data | mask | acs | crop_h crop_w | eps_num eps_den | kOf table | padCoilsTo | in-mask | tgt-mask
+  (`pipeline`, `prepost`;  `given gm ga gs | smap-data | …same groups…` for samples that already contain masks / maps)
 -/
 namespace DirectVerif.Driver.C08
 open DirectVerif DirectVerif.Driver DirectVerif.Pipeline
@@ -56,7 +58,11 @@ structure Line where
   tgtMask : List Bool
 
 def mkExt (l : Line) : Ext Rat where
-  lin := fun _ _ v => v
+  lin := fun ln _ v =>
+    match ln with
+    | .cropMask =>      -- `complex_center_crop` of a sample-provided mask `(1, [1,] h, w, 1)`
+        if l.ch = 0 then v else { v with data := cropHW 1 l.h l.w 1 l.ch l.cw v.data }
+    | _ => v
   crop := fun center _ v =>
     if !center || l.ch = 0 then v else
       { v with data := cropHW (v.nc * v.ns) l.h l.w v.stride l.ch l.cw v.data }
@@ -112,7 +118,17 @@ def errName : Err → String
 
 def bools (xs : List Int) : List Bool := xs.map (· ≠ 0)
 
-def opPipeline (gs : List (List Int)) : String :=
+def fmtE (r : Except ErrE (Store Rat)) : String :=
+  match r with
+  | .ok s => fmtStore s
+  | .error (.base e) => "err " ++ errName e
+  | .error (.indexError _) => "err IndexError"
+
+/-- `which`: 0 = `build_mri_transforms`, 1 = `build_pre_mri_transforms` ++ `build_post_mri_transforms`,
+2 = `build_mri_transforms` on a sample that already contains tensor entries (`given = [gm, ga, gs]`: the `mask` /
+`acs` groups are then the *sample's* masks, `smap` the sample's sensitivity map).  All three run the refined
+semantics `execE` (with the `IndexError` branch of the percentile scaling). -/
+def opPipeline (which : Nat) (gs : List (List Int)) (given smap : List Int) : String :=
   match gs with
   | [flags, [nc, ns, h, w], data, mask, acs, [ch, cw], [en, ed], ktab, [padTo], inM, tgM] =>
     match decodeCfg flags with
@@ -127,9 +143,17 @@ def opPipeline (gs : List (List Int)) : String :=
                         padTo := padTo.toNat, inMask := bools inM, tgtMask := bools tgM }
       if data.length ≠ l.nc * l.ns * l.h * l.w * 2 then "err BadOp" else
       let x : Val Rat := { nc := l.nc, ns := l.ns, cplx := true, data := toRat data }
-      match run ratOps (mkExt l) ⟨[], []⟩ (build cfg) x with
-      | .ok s => fmtStore s
-      | .error e => "err " ++ errName e
+      match which with
+      | 0 => fmtE (runE ratOps (mkExt l) ⟨[], []⟩ (build cfg) x)
+      | 1 => fmtE (runE ratOps (mkExt l) ⟨[], []⟩ (buildPrePost cfg) x)
+      | _ =>
+        let b (i : Nat) : Bool := given.getD i 0 ≠ 0
+        let mv (bs : List Bool) : Val Rat := { data := bs.map fun v => if v then 1 else 0 }
+        let g : Given Rat :=
+          { samplingMask := if b 0 then some (mv l.mask) else none,
+            acsMask := if b 1 then some (mv l.acs) else none,
+            sensitivityMap := if b 2 then some { nc := l.nc, ns := l.ns, cplx := true, data := toRat smap } else none }
+        fmtE (execE ratOps (mkExt l) ⟨[], []⟩ (program (build cfg)) (givenStore x g))
   | _ => "err BadOp"
 
 /-- a single primitive on explicit operands: `prim code | nc ns cplx | data | nc ns cplx | data …` -/
@@ -200,7 +224,9 @@ def opStage (hd aux : List Int) (s : Store Rat) : String :=
 
 def step (op : String) (gs : List (List Int)) : String :=
   match op, gs with
-  | "pipeline", gs => opPipeline gs
+  | "pipeline", gs => opPipeline 0 gs [] []
+  | "prepost", gs => opPipeline 1 gs [] []
+  | "given", given :: smap :: gs => opPipeline 2 gs given smap
   | "prim", (code :: aux) :: rest =>
     match parseVals rest with
     | some vs => opPrim code aux vs
